@@ -223,3 +223,53 @@ Proof.
   split; [exact ds_packed_ok|]. exact declared_example.
 Qed.
 Print Assumptions C12_declared_dtype_example.
+
+(* ---- identity values of the packing attributes (repository commit 0554e88) ------- *)
+
+(* With only a scale_factor, or only an add_offset, the data type presented does
+   not depend on the attribute's value: exactly 1 / exactly 0 gives the type the
+   arithmetic would have given. *)
+Theorem C12_single_attribute_type_value_independent :
+  forall u v t z z',
+  realised_dt v {| p_unsigned := u; p_scale := Some (t, z); p_offset := None |} =
+  realised_dt v {| p_unsigned := u; p_scale := Some (t, z'); p_offset := None |} /\
+  realised_dt v {| p_unsigned := u; p_scale := None; p_offset := Some (t, z) |} =
+  realised_dt v {| p_unsigned := u; p_scale := None; p_offset := Some (t, z') |}.
+Proof. exact single_attribute_type. Qed.
+Print Assumptions C12_single_attribute_type_value_independent.
+
+(* ... and the identity value changes no element that the presented type holds
+   (x': the stored value as viewed under _Unsigned). *)
+Theorem C12_single_identity_keeps_values :
+  forall u v t x,
+  let x' := if is_unsigned_view v {| p_unsigned := u; p_scale := Some (t, 1); p_offset := None |}
+            then x mod 2 ^ (8 * dsize v) else x in
+  let d := promote (view_dt v {| p_unsigned := u; p_scale := Some (t, 1); p_offset := None |}) t in
+  wrap d x' = x' ->
+  unpack_z v {| p_unsigned := u; p_scale := Some (t, 1); p_offset := None |} x = x' /\
+  unpack_z v {| p_unsigned := u; p_scale := None; p_offset := Some (t, 0) |} x = x'.
+Proof. exact single_identity_keeps_values. Qed.
+Print Assumptions C12_single_identity_keeps_values.
+
+(* the hypothesis is met whenever the value lies in the range of the type *)
+Theorem C12_wrap_identity_in_range :
+  forall d x,
+  match dkind_of d with
+  | KF => True
+  | KU => 0 <= x < 2 ^ (8 * dsize d)
+  | KI => - 2 ^ (8 * dsize d) / 2 <= x < 2 ^ (8 * dsize d) / 2
+  end -> wrap d x = x.
+Proof. exact wrap_id. Qed.
+Print Assumptions C12_wrap_identity_in_range.
+
+(* Non-vacuity, and the reason read has to look at the values when BOTH attributes
+   are present: the presented type then still depends on them. *)
+Theorem C12_identity_packing_example :
+  realised_dt I2 {| p_unsigned := false; p_scale := Some (F4, 1); p_offset := Some (F8, 0) |} = F4 /\
+  realised_dt I2 {| p_unsigned := false; p_scale := Some (F4, 2); p_offset := Some (F8, 0) |} = F8 /\
+  realised_dt I4 {| p_unsigned := false; p_scale := Some (F4, 1); p_offset := None |} = F8 /\
+  realised_dt I4 {| p_unsigned := false; p_scale := Some (F4, 3); p_offset := None |} = F8 /\
+  unpack_z I4 {| p_unsigned := false; p_scale := Some (I2, 1); p_offset := None |} 70000 = 70000 /\
+  unpack_z I2 {| p_unsigned := true; p_scale := Some (I2, 1); p_offset := None |} (-5) = 65531.
+Proof. exact both_attributes_type_depends_on_values. Qed.
+Print Assumptions C12_identity_packing_example.
